@@ -210,6 +210,12 @@ impl NameCompressor {
                 continue;
             };
 
+            // Skip slots that have not been used yet. (They have hash 0 and
+            // parent 0 and would otherwise look like a child of entry 0.)
+            if self.len[i] == 0 {
+                continue;
+            }
+
             // Look up the entry in the message contents.
             let (pos, len) = (self.pos[i] as usize, self.len[i] as usize);
             debug_assert_ne!(len, 0);
@@ -365,6 +371,12 @@ impl NameCompressor {
             if self.hash[i] != hash || self.parent[i] != parent {
                 continue;
             };
+
+            // Skip slots that have not been used yet. (They have hash 0 and
+            // parent 0 and would otherwise look like a child of entry 0.)
+            if self.len[i] == 0 {
+                continue;
+            }
 
             // Look up the entry in the message contents.
             let (pos, len) = (self.pos[i] as usize, self.len[i] as usize);
